@@ -472,6 +472,13 @@ LOOP_FROZEN = {
 def loop_kind(node):
     """'bounded' for a for-loop / comprehension over a finite collection, 'unbounded' for while loops and infinite iterators."""
     if isinstance(node, ast.While):
+        # the `for` statement written out: `while True: try: x = next(it) except StopIteration: break|return` ends when the iterator does
+        b0 = node.body[0] if node.body else None
+        if isinstance(node.test, ast.Constant) and node.test.value is True and isinstance(b0, ast.Try) and len(b0.body) == 1 and isinstance(b0.body[0], ast.Assign) \
+                and isinstance(b0.body[0].value, ast.Call) and isinstance(b0.body[0].value.func, ast.Name) and b0.body[0].value.func.id == "next" \
+                and len(b0.body[0].value.args) == 1 and len(b0.handlers) == 1 and isinstance(b0.handlers[0].type, ast.Name) and b0.handlers[0].type.id == "StopIteration" \
+                and len(b0.handlers[0].body) == 1 and isinstance(b0.handlers[0].body[0], (ast.Break, ast.Return)):
+            return "bounded"
         return "unbounded"
     it = node.iter
     if isinstance(it, ast.Call):
